@@ -42,6 +42,7 @@ TAGS = {
     'user': {'user', 'stream'},
     'nested_edit': {'user', 'stream', 'rowwise'},
     'truncate': {'truncating'},
+    'bump': {'user', 'stream', 'rowwise'},
     'iterable': {'source', 'restructure', 'stream'},
     'sources': {'source', 'restructure', 'stream'},
     'load_tuple': {'source', 'restructure', 'stream'},
@@ -394,6 +395,11 @@ def gen_nested_edit(rng, d, g):
     return {'step': 'nested_edit', 'tag': g.fresh('seen')}
 
 
+def gen_bump(rng, d, g):
+    # a user row function that edits *existing* scalar cells in place (integers incl. the provenance id, strings)
+    return {'step': 'bump', 'by': rng.choice([1000000, 2000000])}
+
+
 def gen_truncate(rng, d, g):
     # a user rows-function that stops pulling its input early (a consumer that stops reading)
     return {'step': 'truncate', 'keep': rng.choice([0, 1, 2, 5])}
@@ -640,6 +646,18 @@ def build(spec, env):
         return [DF.finalizer(cb)]
     if s == 'update_stats':
         return [DF.update_stats(dict(spec['stats']))]
+    if s == 'bump':
+        by = spec['by']
+
+        def f(row):
+            for k, v in row.items():
+                if isinstance(v, bool):
+                    continue
+                if isinstance(v, int):
+                    row[k] = v + by
+                elif isinstance(v, str):
+                    row[k] = v + '~'
+        return [f]
     if s == 'truncate':
         import itertools
         keep = spec['keep']
